@@ -13,6 +13,7 @@ import Hw.Topo.RenderSets
 import Hw.Topo.RenderPU
 import Hw.Topo.RestrictExists
 import Hw.Topo.RestrictAllowed
+import Hw.Topo.RestrictUnique
 import Hw.Topo.WF
 import Driver.Topo
 import Driver.Util
@@ -150,7 +151,8 @@ def verdict (st : State) (c : Call) (bd : Dump) (braw : List (List String)) (ad 
       (if (coverT topo.allowedCpu tPU tree && coverT topo.allowedNode tNUMA tree) || !wfB.isEmpty then []
         else ["hypothesis-allowed-sets-covered-fails-on-a-WF-before-dump"]) ++
       -- B2: C08_restrict_allowed_sets, first part: the tree-level clause allowed-sets holds for every WF BEFORE dump
-      (if allowedOKT topo (flagIncludeDisallowed bd) || !wfB.isEmpty then [] else ["hypothesis-allowedOK-fails-on-a-WF-before-dump"])
+      (if (allowedOKT topo (flagIncludeDisallowed bd) && decide (osUniqueT tPU tree) && decide (osUniqueT tNUMA tree)) || !wfB.isEmpty
+        then [] else ["hypothesis-allowedOK-or-osindex-unique-fails-on-a-WF-before-dump"])
     let (topo', ret) := restrict topo c.set c.flags
     match ret with
     | .rootRemoved => ("MODEL-UNDEFINED root-would-be-removed", .unknown)
@@ -184,6 +186,8 @@ def verdict (st : State) (c : Call) (bd : Dump) (braw : List (List String)) (ad 
         -- … and its second part: preserved by the call (the model's allowed sets are compared with hwloc's above)
         (if allowedOKT topo' (flagIncludeDisallowed bd) || !(allowedOKT topo (flagIncludeDisallowed bd) && okT tree && typedT tree && puLeafT tree)
           then [] else ["allowedOK-not-preserved"]) ++
+        (if (decide (osUniqueT tPU topo'.tree) || !decide (osUniqueT tPU tree)) && (decide (osUniqueT tNUMA topo'.tree) || !decide (osUniqueT tNUMA tree))
+          then [] else ["osindex-unique-not-preserved"]) ++
         (if wfB.isEmpty then
           (match plan topo c.set c.flags with
            | none => []
